@@ -202,10 +202,12 @@ static int upipe_ts_align_control(struct upipe *upipe,
 static void upipe_ts_align_free(struct upipe *upipe)
 {
     struct upipe_ts_align *upipe_ts_align = upipe_ts_align_from_upipe(upipe);
-    upipe_throw_dead(upipe);
 
+    /* The inner pipe may flush what it holds when it is released (ts_sync
+     * does), and its events are thrown in our name: let it go first. */
     upipe_ts_align_clean_bin_input(upipe);
     upipe_ts_align_clean_bin_output(upipe);
+    upipe_throw_dead(upipe);
     uprobe_clean(&upipe_ts_align->proxy_probe);
     upipe_ts_align_clean_urefcount(upipe);
     upipe_ts_align_free_void(upipe);
